@@ -40,6 +40,11 @@ type hoverElement struct {
 }
 
 func (s *Server) Hover(ctx context.Context, params *protocol.HoverParams) (*protocol.Hover, error) {
+	// a feature switched off in the configuration answers nothing, also when it
+	// was switched off after the capabilities were announced
+	if !s.getSettings().Features.Hover {
+		return nil, nil
+	}
 	doc, ok := s.GetDocument(params.TextDocument.URI)
 	if !ok {
 		return nil, nil
